@@ -46,7 +46,7 @@ Section GenericProofs.
       s_fine sz = fine_of ops p mn mx /\ s_center sz = center_of ops mn mx /\
       s_ngrid sz = ngrid_of ops p mn mx /\
       smallest ops (smallest_fuel (ngrid_of ops p mn mx)) (p_gmemceil p)
-               (map3 PInt (ngrid_of ops p mn mx)) = Ok (s_nsmall sz) /\
+               (ngrid_of ops p mn mx) = Ok (s_nsmall sz) /\
       s_nproc sz = zip3 (nproc1 ops (p_ofrac p)) (ngrid_of ops p mn mx) (s_nsmall sz).
   Proof.
     unfold set_all. destruct (box st) as [[mn mx]|]; [|discriminate].
@@ -116,70 +116,21 @@ Section GenericProofs.
     rewrite (header_insert _ l1 l2 h Hh). reflexivity.
   Qed.
 
-  (* ---- set_smallest: a reduced entry is a float, and stays one ----------- *)
-
-  Definition is_float (n : pynum (A:=A)) : bool := match n with PFloat _ => true | PInt _ => false end.
-  Definition has_float (n : vec3 (pynum (A:=A))) : bool :=
-    let '(a, b, c) := n in is_float a || is_float b || is_float c.
-
-  Lemma shrink_has_float n n' : shrink ops n = Ok n' -> has_float n' = true.
-  Proof.
-    destruct n as [[a b] c]. unfold shrink.
-    destruct (eqbA ops (toA ops a) _).
-    - destruct (leb ops _ _); [discriminate|]. intros H; injection H as <-. reflexivity.
-    - destruct (eqbA ops (toA ops b) _).
-      + destruct (leb ops _ _); [discriminate|]. intros H; injection H as <-.
-        cbn. now rewrite orb_true_r.
-      + destruct (leb ops _ _); [discriminate|]. intros H; injection H as <-.
-        cbn. now rewrite orb_true_r.
-  Qed.
-
-  Lemma smallest_keeps_float fuel ceil n n' :
-    has_float n = true -> smallest ops fuel ceil n = Ok n' -> has_float n' = true.
-  Proof.
-    revert n; induction fuel as [|f IH]; intros n Hn; cbn [smallest]; [discriminate|].
-    destruct (ltb A ops (mem_mb ops n) ceil).
-    - intros H; injection H as <-. exact Hn.
-    - destruct (shrink ops n) as [m|] eqn:Es; cbn [bind]; [|discriminate].
-      apply IH. exact (shrink_has_float _ _ Es).
-  Qed.
-
-  Lemma smallest_first_float fuel ceil n n' :
-    ltb A ops (mem_mb ops n) ceil = false -> smallest ops fuel ceil n = Ok n' -> has_float n' = true.
-  Proof.
-    destruct fuel as [|f]; cbn [smallest]; [discriminate|]. intros ->.
-    destruct (shrink ops n) as [m|] eqn:Es; cbn [bind]; [|discriminate].
-    apply smallest_keeps_float. exact (shrink_has_float _ _ Es).
-  Qed.
-
-  (* nproc1 is an int exactly on the axes where it is > 1; an axis whose
-     nsmall entry is still the python int of ngrid has ratio 1.0 (a float) *)
-  Lemma report_fmt_conflict (p : params) (st : pstate) (sz : sizing) :
-    has_float (s_nsmall sz) = true ->
-    (0 <? gotatom st)%Z = true ->
-    gtb ops (mem_mb ops (map3 PInt (s_ngrid sz))) (p_gmemceil p) = true ->
-    report ops p st sz = Err ErrFmtD.
-  Proof.
-    intros Hf Hg Hm. unfold report. rewrite Hg, Hm.
-    destruct (s_nproc sz) as [[p0 p1] p2]. destruct (s_nsmall sz) as [[n0 n1] n2].
-    cbn in Hf.
-    destruct n0, n1, n2; cbn in Hf; try discriminate; cbn [fmt_d_ok];
-      rewrite ?andb_false_r; reflexivity.
-  Qed.
+  (* ---- the memory report ------------------------------------------------- *)
 
   (* whenever a report is produced, its figures are the formula applied to the
      grid it names, and that grid is ngrid (sequential) or nsmall (parallel) *)
   Lemma report_figures (p : params) (st : pstate) (sz : sizing) (m : mem_report) :
     report ops p st sz = Ok (Some m) ->
     r_est_mb m = mem_mb ops (r_grid m) /\ r_per_proc_mb m = mem_mb ops (r_grid m) /\
-    r_grid m = (if r_parallel m then s_nsmall sz else map3 PInt (s_ngrid sz)) /\
-    r_parallel m = gtb ops (mem_mb ops (map3 PInt (s_ngrid sz))) (p_gmemceil p).
+    r_grid m = (if r_parallel m then s_nsmall sz else s_ngrid sz) /\
+    r_parallel m = gtb ops (mem_mb ops (s_ngrid sz)) (p_gmemceil p).
   Proof.
     unfold report. destruct (0 <? gotatom st)%Z; [|discriminate].
     destruct (gtb ops _ _) eqn:Eg.
-    - destruct (s_nproc sz) as [[p0 p1] p2]. destruct (s_nsmall sz) as [[n0 n1] n2].
-      destruct (_ && _); [|discriminate]. intros H; injection H as <-. cbn. auto.
-    - intros H; injection H as <-. cbn. auto.
+    - destruct (eqbA ops _ _); [discriminate|]. destruct (spacing_ok _); [|discriminate].
+      intros H; injection H as <-. cbn. auto.
+    - destruct (spacing_ok _); [|discriminate]. intros H; injection H as <-. cbn. auto.
   Qed.
 
 End GenericProofs.
@@ -317,6 +268,219 @@ Proof.
   rewrite tokens_dash_padded; [|assumption|apply sep_start_padded; assumption].
   rewrite tokens_dash_padded; [|assumption|apply sep_start_all_ws; assumption].
   rewrite (dash_sp_nodash _ (all_ws_nodash _ Ht)), (tokens_all_ws _ Ht). reflexivity.
+Qed.
+
+(* ---- any spacing, including none: how many words split() finds ----------------- *)
+
+(* a tail written as (blanks, word) pairs followed by trailing blanks *)
+Fixpoint render (fs : list (nat * string)) (trail : string) : string :=
+  match fs with
+  | [] => trail
+  | (g, t) :: r => repeat_char sp g ++ t ++ render r trail
+  end.
+
+Definition word_ok (t : string) : bool := negb (is_empty t) && negb (any_char is_ws t).
+
+Lemma clean_word_ok t : clean_tok t = true -> word_ok t = true.
+Proof.
+  destruct t as [|c r]; [discriminate|]. cbn [clean_tok word_ok is_empty any_char negb andb].
+  intros H. apply andb_true_iff in H as [H _]. apply andb_true_iff in H as [Hc Hw].
+  apply negb_true_iff in Hc, Hw. now rewrite Hc, Hw.
+Qed.
+
+Lemma toks_noblank_app t s :
+  any_char is_ws t = false -> toks (t ++ s) = (t ++ fst (toks s), snd (toks s)).
+Proof.
+  induction t as [|c t IH]; cbn [any_char append toks]; intros H.
+  - destruct (toks s); reflexivity.
+  - apply orb_false_iff in H as [Hc Ht]. rewrite (IH Ht), Hc. reflexivity.
+Qed.
+
+Lemma tokens_toks s : tokens s = cons_ne (fst (toks s)) (snd (toks s)).
+Proof. unfold tokens. destruct (toks s); reflexivity. Qed.
+
+Lemma tokens_word_app t s :
+  word_ok t = true -> tokens (t ++ s) = (t ++ fst (toks s)) :: snd (toks s).
+Proof.
+  intros H. apply andb_true_iff in H as [Hne Hw]. apply negb_true_iff in Hne, Hw.
+  rewrite tokens_toks, (toks_noblank_app _ _ Hw). cbn [fst snd]. unfold cons_ne.
+  destruct t; [discriminate | reflexivity].
+Qed.
+
+(* split() never finds more words than were written, and finds as many only
+   when it finds exactly the words that were written *)
+Lemma tokens_render fs trail :
+  all_chars is_ws trail = true ->
+  Forall (fun f => word_ok (snd f) = true) fs ->
+  (List.length (tokens (render fs trail)) <= List.length fs)%nat /\
+  (List.length (tokens (render fs trail)) = List.length fs ->
+   tokens (render fs trail) = map snd fs).
+Proof.
+  intros Ht Hf. induction fs as [|[g t] fs IH].
+  - cbn [render List.length map]. rewrite (tokens_all_ws _ Ht). split; [cbn; lia | reflexivity].
+  - inversion Hf as [|f0 fs0 Hw Hf']; subst. cbn [snd] in Hw. specialize (IH Hf'). clear Hf.
+    induction g as [|g IHg].
+    + cbn [render repeat_char append]. rewrite (tokens_word_app _ _ Hw).
+      rewrite tokens_toks in IH. destruct IH as [IH1 IH2].
+      destruct (fst (toks (render fs trail))) as [|c h'].
+      * cbn [cons_ne is_empty] in IH1, IH2. rewrite app_empty_r. cbn [List.length map snd].
+        split; [lia|]. intros E. f_equal. apply IH2. lia.
+      * cbn [cons_ne is_empty List.length] in IH1, IH2. cbn [List.length map snd].
+        split; [lia|]. intros E. lia.
+    + cbn [render repeat_char append]. rewrite tokens_ws_prefix by reflexivity. exact IHg.
+Qed.
+
+(* replace("-", " -") only widens the gap before a word that starts with '-' *)
+Definition dash_adj (f : nat * string) : nat * string :=
+  (if starts_dash (snd f) then S (fst f) else fst f, snd f).
+
+Lemma repeat_char_snoc c n s : repeat_char c n ++ String c s = repeat_char c (S n) ++ s.
+Proof. induction n; cbn [repeat_char append]; [reflexivity | now rewrite IHn]. Qed.
+
+Lemma dash_sp_clean t :
+  clean_tok t = true -> dash_sp t = if starts_dash t then String sp t else t.
+Proof.
+  destruct t as [|c r]; [discriminate|]. cbn [clean_tok]. intros H.
+  apply andb_true_iff in H as [_ Hd]. apply negb_true_iff in Hd.
+  cbn [dash_sp starts_dash]. rewrite (dash_sp_nodash _ Hd). unfold is_dash.
+  destruct (Ascii.eqb c "-") eqn:E; [|reflexivity].
+  apply Ascii.eqb_eq in E. subst c. reflexivity.
+Qed.
+
+Lemma dash_sp_render fs trail :
+  all_chars is_ws trail = true ->
+  Forall (fun f => clean_tok (snd f) = true) fs ->
+  dash_sp (render fs trail) = render (map dash_adj fs) trail.
+Proof.
+  intros Ht Hf. induction fs as [|[g t] fs IH].
+  - cbn [render map]. apply dash_sp_nodash, all_ws_nodash, Ht.
+  - inversion Hf as [|f0 fs0 Hc Hf']; subst. cbn [snd] in Hc.
+    cbn [render map dash_adj fst snd]. rewrite !dash_sp_app, dash_sp_blanks, (dash_sp_clean _ Hc), (IH Hf').
+    destruct (starts_dash t); [|reflexivity].
+    cbn [append]. now rewrite repeat_char_snoc.
+Qed.
+
+Lemma map_snd_dash_adj fs : map snd (map dash_adj fs) = map snd fs.
+Proof. induction fs as [|[g t] fs IH]; cbn; [reflexivity | now rewrite IH]. Qed.
+
+(* the words python finds after column 30 in any such tail: at most as many as
+   were written, and if as many, then exactly those *)
+Lemma words_rendered (head : string) fs trail :
+  String.length head = 30%nat -> all_chars is_ws trail = true ->
+  Forall (fun f => clean_tok (snd f) = true) fs ->
+  (List.length (words_after30 (head ++ render fs trail)) <= List.length fs)%nat /\
+  (List.length (words_after30 (head ++ render fs trail)) = List.length fs ->
+   words_after30 (head ++ render fs trail) = map snd fs).
+Proof.
+  intros Hh Ht Hf. unfold words_after30. rewrite <- Hh, drop_app_exact, (dash_sp_render _ _ Ht Hf).
+  assert (Hw : Forall (fun f => word_ok (snd f) = true) (map dash_adj fs)).
+  { clear -Hf. induction Hf as [|[g t] fs Hc Hf IH]; cbn [map]; constructor; [|exact IH].
+    cbn [dash_adj snd]. apply clean_word_ok, Hc. }
+  pose proof (tokens_render _ _ Ht Hw) as [H1 H2].
+  rewrite map_length, map_snd_dash_adj in *. split; assumption.
+Qed.
+
+(* every word after the first kept apart: split() finds exactly the words written *)
+Lemma toks_sep (R : string) :
+  (R = "" \/ exists c r, R = String c r /\ is_ws c = true) -> toks R = ("", tokens R).
+Proof.
+  intros [-> | (c & r & -> & Hc)]; [reflexivity|].
+  unfold tokens. cbn [toks]. destruct (toks r) as [h t]. rewrite Hc. reflexivity.
+Qed.
+
+Lemma all_ws_sep s :
+  all_chars is_ws s = true -> s = "" \/ exists c r, s = String c r /\ is_ws c = true.
+Proof.
+  destruct s as [|c r]; [now left|]. cbn [all_chars]. intros H. apply andb_true_iff in H as [Hc _].
+  right. exists c, r. split; [reflexivity | exact Hc].
+Qed.
+
+Lemma tokens_render_apart fs trail :
+  all_chars is_ws trail = true ->
+  Forall (fun f => word_ok (snd f) = true) fs ->
+  Forall (fun f => (1 <= fst f)%nat) (tl fs) ->
+  tokens (render fs trail) = map snd fs.
+Proof.
+  intros Ht Hf. induction fs as [|[g t] fs IH]; intros Ha.
+  - cbn [render map]. apply tokens_all_ws, Ht.
+  - inversion Hf as [|f0 fs0 Hw Hf']; subst. cbn [snd] in Hw. cbn [tl] in Ha.
+    cbn [render map snd]. rewrite tokens_blanks_prefix, (tokens_word_app _ _ Hw).
+    assert (Hs : toks (render fs trail) = ("", tokens (render fs trail))).
+    { apply toks_sep. destruct fs as [|[g' t'] fs']; [apply all_ws_sep, Ht|].
+      inversion Ha as [|f1 fs1 Hg Ha']; subst. cbn [fst] in Hg. cbn [render].
+      destruct g' as [|g']; [lia|]. right. cbn [repeat_char append]. eexists _, _. split; reflexivity. }
+    rewrite Hs. cbn [fst snd]. rewrite app_empty_r. f_equal. apply IH; [exact Hf'|].
+    destruct fs as [|f fs']; [constructor|]. inversion Ha; assumption.
+Qed.
+
+Definition kept_apart (f : nat * string) : Prop := (1 <= fst f)%nat \/ starts_dash (snd f) = true.
+
+Lemma words_rendered_apart (head : string) fs trail :
+  String.length head = 30%nat -> all_chars is_ws trail = true ->
+  Forall (fun f => clean_tok (snd f) = true) fs ->
+  Forall kept_apart (tl fs) ->
+  words_after30 (head ++ render fs trail) = map snd fs.
+Proof.
+  intros Hh Ht Hf Ha. unfold words_after30. rewrite <- Hh, drop_app_exact, (dash_sp_render _ _ Ht Hf).
+  rewrite <- (map_snd_dash_adj fs). apply tokens_render_apart; [exact Ht| |].
+  - clear -Hf. induction Hf as [|[g t] fs Hc Hf IH]; cbn [map]; constructor; [|exact IH].
+    cbn [dash_adj snd]. apply clean_word_ok, Hc.
+  - destruct fs as [|f fs]; [constructor|]. cbn [map tl] in *.
+    clear -Ha. induction Ha as [|[g t] fs Hk Ha IH]; cbn [map]; constructor; [|exact IH].
+    cbn [dash_adj fst snd]. destruct Hk as [Hk | Hk]; cbn [fst snd] in Hk.
+    + destruct (starts_dash t); lia.
+    + rewrite Hk. lia.
+Qed.
+
+Lemma skipn_length_app {T : Type} (l m : list T) : skipn (List.length l) (l ++ m)%list = m.
+Proof. induction l; cbn; auto. Qed.
+
+Lemma last5_app (l five : list string) : List.length five = 5%nat -> last5 (l ++ five)%list = five.
+Proof.
+  intros H. unfold last5. rewrite app_length, H.
+  replace (List.length l + 5 - 5)%nat with (List.length l) by lia. apply skipn_length_app.
+Qed.
+
+(* ---- string positions -------------------------------------------------------- *)
+
+Lemma get_app_skip (a b : string) (k n : nat) :
+  String.length a = k -> String.get (k + n) (a ++ b) = String.get n b.
+Proof.
+  intros <-. induction a as [|c a IH]; [reflexivity|]. cbn [String.length Nat.add append String.get]. exact IH.
+Qed.
+
+Lemma get_app_l (a b : string) (n : nat) :
+  (n < String.length a)%nat -> String.get n (a ++ b) = String.get n a.
+Proof.
+  revert n; induction a as [|c a IH]; intros n H; cbn [String.length] in H; [lia|].
+  destruct n; cbn [append String.get]; [reflexivity | apply IH; lia].
+Qed.
+
+Lemma drop_app_skip (a b : string) (k n : nat) :
+  String.length a = k -> drop (k + n) (a ++ b) = drop n b.
+Proof.
+  intros <-. induction a as [|c a IH]; [reflexivity|]. cbn [String.length Nat.add append drop]. exact IH.
+Qed.
+
+Lemma slice_app_skip (a b : string) (k i j : nat) :
+  String.length a = k -> slice (k + i) (k + j) (a ++ b) = slice i j b.
+Proof.
+  intros H. unfold slice. rewrite (drop_app_skip _ _ _ _ H). f_equal. lia.
+Qed.
+
+Lemma slice_app_first (a b : string) (k : nat) :
+  String.length a = k -> slice 0 k (a ++ b) = a.
+Proof. intros <-. unfold slice. rewrite Nat.sub_0_r. cbn [drop]. apply take_app_exact. Qed.
+
+Lemma length_pad n t : String.length (repeat_char sp n ++ t) = (n + String.length t)%nat.
+Proof. now rewrite length_app, length_repeat. Qed.
+
+Lemma pad_tok_not_blank n t : clean_tok t = true -> all_chars is_ws (repeat_char sp n ++ t) = false.
+Proof.
+  intros H. induction n as [|n IH]; cbn [repeat_char append all_chars]; [|now rewrite IH, andb_false_r].
+  destruct t as [|c r]; [discriminate|]. cbn [clean_tok] in H.
+  apply andb_true_iff in H as [H _]. apply andb_true_iff in H as [Hc _]. apply negb_true_iff in Hc.
+  cbn [all_chars]. now rewrite Hc.
 Qed.
 
 (* ---- pathlib name ----------------------------------------------------------- *)
@@ -633,58 +797,50 @@ Qed.
 
 (* ---- set_smallest terminates ----------------------------------------------- *)
 
-(* the entry is (a python number equal to) 32k+1 with k >= 0 *)
-Definition rep (n : pynum (A:=Q)) (k : Z) : Prop :=
-  toA QA n == inject_Z (32 * k + 1) /\ (0 <= k)%Z.
+(* the entry is the python int 32k+1 with k >= 0 *)
+Definition rep (n k : Z) : Prop := (n = 32 * k + 1 /\ 0 <= k)%Z.
 
-Lemma reduce_eq (n : Q) : reduce QA n == n - 32.
+Lemma reduce_rep (k : Z) : reduce (32 * k + 1) = (32 * (k - 1) + 1)%Z.
 Proof.
-  unfold reduce, one. cbn [add sub mul div ofZ QA]. rewrite !Qred_correct. qconst. field.
+  unfold reduce. replace (32 * k + 1 - 1)%Z with (k * 32)%Z by lia.
+  rewrite Z.div_mul by lia. reflexivity.
 Qed.
 
-Lemma rep_reduce (v : Q) (k : Z) :
-  v == inject_Z (32 * k + 1) -> (0 <= k)%Z ->
-  (leb QA (reduce QA v) (zero QA) = true /\ k = 0%Z) \/
-  (leb QA (reduce QA v) (zero QA) = false /\ rep (PFloat (reduce QA v)) (k - 1)).
+Lemma rep_reduce (n k : Z) :
+  rep n k ->
+  ((reduce n <=? 0)%Z = true /\ k = 0%Z) \/ ((reduce n <=? 0)%Z = false /\ rep (reduce n) (k - 1)).
 Proof.
-  intros Hv Hk. unfold leb, zero. cbn [ltb ofZ QA].
-  assert (E : reduce QA v == inject_Z (32 * (k - 1) + 1)).
-  { rewrite reduce_eq, Hv. rewrite !inject_Z_plus, !inject_Z_mult.
-    change (inject_Z (k - 1)) with (inject_Z (k + -1)). rewrite inject_Z_plus.
-    change (inject_Z 32) with (32 # 1). change (inject_Z 1) with (1 # 1).
-    change (inject_Z (-1)) with (-1 # 1). lra. }
-  destruct (Qltb (inject_Z 0) (reduce QA v)) eqn:L; cbn [negb].
-  - right. split; [reflexivity|]. apply Qltb_lt in L. rewrite E in L.
-    rewrite <- Zlt_Qlt in L. split; [exact E | lia].
-  - left. split; [reflexivity|]. apply Qltb_ge in L. rewrite E in L.
-    rewrite <- Zle_Qle in L. lia.
+  intros [-> Hk]. rewrite reduce_rep.
+  destruct (32 * (k - 1) + 1 <=? 0)%Z eqn:E; [left | right].
+  - apply Z.leb_le in E. split; [reflexivity | lia].
+  - apply Z.leb_gt in E. split; [reflexivity|]. split; [reflexivity | lia].
 Qed.
 
 Ltac conj_fin :=
   repeat match goal with |- _ /\ _ => split end;
   try assumption; try (split; assumption); try lia.
 
-Lemma shrink_spec (a b c : pynum (A:=Q)) (ka kb kc : Z) :
+Lemma shrink_spec (a b c ka kb kc : Z) :
   rep a ka -> rep b kb -> rep c kc ->
-  match shrink QA (a, b, c) with
+  match shrink (a, b, c) with
   | Err e => e = ErrCeiling
   | Ok (a', b', c') =>
       exists ka' kb' kc', rep a' ka' /\ rep b' kb' /\ rep c' kc' /\
         (ka' <= ka /\ kb' <= kb /\ kc' <= kc /\ ka' + kb' + kc' = ka + kb + kc - 1)%Z
   end.
 Proof.
-  intros [Ha Pa] [Hb Pb] [Hc Pc]. unfold shrink.
-  destruct (eqbA QA (toA QA a) _).
-  - destruct (rep_reduce _ _ Ha Pa) as [[-> _] | [-> R]]; [reflexivity|].
+  intros Ra Rb Rc. unfold shrink.
+  destruct (a =? _)%Z.
+  - destruct (rep_reduce _ _ Ra) as [[-> _] | [-> R]]; [reflexivity|].
     exists (ka - 1)%Z, kb, kc. conj_fin.
-  - destruct (eqbA QA (toA QA b) _).
-    + destruct (rep_reduce _ _ Hb Pb) as [[-> _] | [-> R]]; [reflexivity|].
+  - destruct (b =? _)%Z.
+    + destruct (rep_reduce _ _ Rb) as [[-> _] | [-> R]]; [reflexivity|].
       exists ka, (kb - 1)%Z, kc. conj_fin.
-    + destruct (rep_reduce _ _ Hc Pc) as [[-> _] | [-> R]]; [reflexivity|].
+    + destruct (rep_reduce _ _ Rc) as [[-> _] | [-> R]]; [reflexivity|].
       exists ka, kb, (kc - 1)%Z. conj_fin.
 Qed.
 
-Lemma smallest_spec (fuel : nat) (ceil : Q) (a b c : pynum (A:=Q)) (ka kb kc : Z) :
+Lemma smallest_spec (fuel : nat) (ceil : Q) (a b c ka kb kc : Z) :
   rep a ka -> rep b kb -> rep c kc ->
   (Z.to_nat (ka + kb + kc) < fuel)%nat ->
   match smallest QA fuel ceil (a, b, c) with
@@ -700,7 +856,7 @@ Proof.
   - split; [exists ka, kb, kc; conj_fin|].
     apply Qltb_lt. exact Em.
   - pose proof (shrink_spec a b c ka kb kc Ra Rb Rc) as Hs.
-    destruct (shrink QA (a, b, c)) as [[[a' b'] c']|e]; cbn [bind]; [|exact Hs].
+    destruct (shrink (a, b, c)) as [[[a' b'] c']|e]; cbn [bind]; [|exact Hs].
     destruct Hs as (ka' & kb' & kc' & Ra' & Rb' & Rc' & La & Lb & Lc & Hsum).
     assert (Hf' : (Z.to_nat (ka' + kb' + kc') < f)%nat).
     { destruct Ra as [_ ?], Rb as [_ ?], Rc as [_ ?], Ra' as [_ ?], Rb' as [_ ?], Rc' as [_ ?]. lia. }
@@ -710,7 +866,7 @@ Proof.
     split; [|exact Hm]. exists k1, k2, k3. conj_fin.
 Qed.
 
-Lemma grid_ok_rep (n : Z) : grid_ok n -> rep (PInt n) ((n - 1) / 32).
+Lemma grid_ok_rep (n : Z) : grid_ok n -> rep n ((n - 1) / 32).
 Proof.
   intros [(k & -> & Hk) _]. replace ((32 * k + 1 - 1) / 32)%Z with k.
   - split; [reflexivity | lia].
@@ -721,18 +877,17 @@ Qed.
    code's own ValueError; the result entries are 32k+1, not above ngrid, and fit *)
 Theorem smallest_terminates (p : params (A:=Q)) (mn mx : vec3 Q) :
   let ng := ngrid_of QA p mn mx in
-  match smallest QA (smallest_fuel ng) (p_gmemceil p) (map3 PInt ng) with
+  match smallest QA (smallest_fuel ng) (p_gmemceil p) ng with
   | Err e => e = ErrCeiling
   | Ok ns =>
-      (forall i, exists k : Z, (0 <= k)%Z /\ toA QA (ax i ns) == inject_Z (32 * k + 1) /\
-                               (32 * k + 1 <= ax i ng)%Z) /\
+      (forall i, exists k : Z, (0 <= k)%Z /\ ax i ns = (32 * k + 1)%Z /\ (32 * k + 1 <= ax i ng)%Z) /\
       mem_mb QA ns < p_gmemceil p
   end.
 Proof.
   cbv zeta. pose proof (ngrid_of_ok QA p mn mx) as Hok.
   destruct (ngrid_of QA p mn mx) as [[a b] c].
   pose proof (Hok AX) as Ha. pose proof (Hok AY) as Hb. pose proof (Hok AZ) as Hc. cbn [ax] in Ha, Hb, Hc.
-  cbn [map3 smallest_fuel].
+  cbn [smallest_fuel].
   pose proof (smallest_spec (S (S (Z.to_nat ((a - 1) / 32 + (b - 1) / 32 + (c - 1) / 32))))
                 (p_gmemceil p) _ _ _ _ _ _ (grid_ok_rep _ Ha) (grid_ok_rep _ Hb) (grid_ok_rep _ Hc)) as H.
   specialize (H ltac:(lia)).
@@ -749,60 +904,132 @@ Qed.
 (* ---- memory figures ---------------------------------------------------------- *)
 
 Lemma mem_mb_ints (a b c : Z) :
-  mem_mb QA (PInt a, PInt b, PInt c) == 200 * inject_Z (a * b * c) / 1024 / 1024.
+  mem_mb QA (a, b, c) == 200 * inject_Z (a * b * c) / 1024 / 1024.
 Proof.
-  unfold mem_mb. cbn [toA add sub mul div ofZ QA]. rewrite !Qred_correct.
+  unfold mem_mb. cbn [add sub mul div ofZ QA]. rewrite !Qred_correct.
   rewrite !inject_Z_mult. qconst. field.
 Qed.
 
-(* parallel solve needed => Psize.__str__ raises (':d' applied to a float) *)
-Theorem report_parallel_raises (p : params (A:=Q)) (st : pstate (A:=Q)) (sz : sizing (A:=Q)) :
-  set_all QA p st = Ok sz -> (0 < gotatom st)%Z ->
-  p_gmemceil p < mem_mb QA (map3 PInt (s_ngrid sz)) ->
-  report QA p st sz = Err ErrFmtD.
+(* what set_all stores as nsmall: entries 32k+1 (k >= 0) not above ngrid, under the ceiling *)
+Lemma set_all_nsmall (p : params (A:=Q)) (st : pstate (A:=Q)) (sz : sizing (A:=Q)) :
+  set_all QA p st = Ok sz ->
+  (forall i, exists k : Z, (0 <= k)%Z /\ ax i (s_nsmall sz) = (32 * k + 1)%Z /\
+                           (32 * k + 1 <= ax i (s_ngrid sz))%Z) /\
+  mem_mb QA (s_nsmall sz) < p_gmemceil p.
 Proof.
-  intros Hset Hg Hm.
+  intros Hset.
   destruct (set_all_fields _ _ _ _ Hset) as (mn & mx & _ & _ & _ & _ & _ & En & Es & _).
-  apply report_fmt_conflict.
-  - rewrite <- En in Es. apply (smallest_first_float QA) in Es; [exact Es|].
-    cbn [ltb QA]. apply Qltb_ge. lra.
-  - apply Z.ltb_lt. exact Hg.
-  - unfold gtb. cbn [ltb QA]. apply Qltb_lt. exact Hm.
+  pose proof (smallest_terminates p mn mx) as H. cbv zeta in H. rewrite Es in H. rewrite En. exact H.
 Qed.
 
-(* the figure that is reported is the formula for the grid it is reported with,
-   and that grid is ngrid (the sequential branch is the only one that prints) *)
+(* the figures that are reported are the formula for the grid they are reported
+   with; that grid is ngrid when it fits the ceiling (sequential) and otherwise
+   nsmall, whose entries are 32k+1 (k >= 0), not above ngrid, and which fits *)
 Theorem mem_estimate (p : params (A:=Q)) (st : pstate (A:=Q)) (sz : sizing (A:=Q)) (m : mem_report (A:=Q)) :
   set_all QA p st = Ok sz -> report QA p st sz = Ok (Some m) ->
-  r_parallel m = false /\ r_grid m = map3 PInt (s_ngrid sz) /\
-  let '(nx, ny, nz) := s_ngrid sz in
-  r_est_mb m == 200 * inject_Z (nx * ny * nz) / 1024 / 1024 /\
-  r_per_proc_mb m == 200 * inject_Z (nx * ny * nz) / 1024 / 1024 /\
-  r_est_mb m <= p_gmemceil p.
+  (let '(nx, ny, nz) := r_grid m in
+   r_est_mb m == 200 * inject_Z (nx * ny * nz) / 1024 / 1024 /\
+   r_per_proc_mb m == 200 * inject_Z (nx * ny * nz) / 1024 / 1024) /\
+  (if r_parallel m
+   then r_grid m = s_nsmall sz /\ p_gmemceil p < mem_mb QA (s_ngrid sz) /\
+        r_est_mb m < p_gmemceil p /\
+        (forall i, exists k : Z, (0 <= k)%Z /\ ax i (r_grid m) = (32 * k + 1)%Z /\
+                                 (32 * k + 1 <= ax i (s_ngrid sz))%Z)
+   else r_grid m = s_ngrid sz /\ r_est_mb m <= p_gmemceil p).
 Proof.
   intros Hset Hr.
   destruct (report_figures QA p st sz m Hr) as (E1 & E2 & E3 & E4).
-  assert (Hg : (0 < gotatom st)%Z).
-  { unfold report in Hr. destruct (0 <? gotatom st)%Z eqn:E; [now apply Z.ltb_lt | discriminate]. }
-  destruct (r_parallel m) eqn:Ep.
-  - symmetry in E4. unfold gtb in E4. cbn [ltb QA] in E4. apply Qltb_lt in E4.
-    rewrite (report_parallel_raises p st sz Hset Hg E4) in Hr. discriminate.
-  - split; [reflexivity|]. split; [exact E3|].
-    symmetry in E4. unfold gtb in E4. cbn [ltb QA] in E4. apply Qltb_ge in E4.
-    rewrite E1, E2, E3. destruct (s_ngrid sz) as [[nx ny] nz]. cbn [map3] in *.
-    rewrite (mem_mb_ints nx ny nz) in *. repeat split; try reflexivity. exact E4.
+  split.
+  - rewrite E1, E2. destruct (r_grid m) as [[nx ny] nz]. rewrite (mem_mb_ints nx ny nz). split; reflexivity.
+  - symmetry in E4. unfold gtb in E4. cbn [ltb QA] in E4.
+    destruct (r_parallel m).
+    + apply Qltb_lt in E4. destruct (set_all_nsmall _ _ _ Hset) as [Hk Hm].
+      rewrite E1, E3. repeat split; assumption.
+    + apply Qltb_ge in E4. rewrite E1, E3. split; [reflexivity | exact E4].
 Qed.
 
-(* sequential case: the report is produced *)
-Theorem report_sequential_ok (p : params (A:=Q)) (st : pstate (A:=Q)) (sz : sizing (A:=Q)) :
-  (0 < gotatom st)%Z -> mem_mb QA (map3 PInt (s_ngrid sz)) <= p_gmemceil p ->
+(* ---- the report is produced for every grid (finding C17-F12 repaired) ---------- *)
+
+Lemma Qtrunc_ge2 (q : Q) : 2 <= q -> (2 <= Qtrunc q)%Z.
+Proof.
+  destruct q as [n d]. unfold Qle, Qtrunc. cbn [Qnum Qden]. intros H.
+  apply Z.quot_le_lower_bound; lia.
+Qed.
+
+Lemma glob_den_pos (ofrac : Q) : 0 <= ofrac -> 0 < glob_den QA ofrac.
+Proof.
+  intros H. unfold glob_den, zofac, milli, one. cbn [add sub mul div ofZ QA]. rewrite !Qred_correct.
+  unfold Qdiv, inject_Z. change (/ (1000 # 1)) with (1 # 1000). lra.
+Qed.
+
+Lemma nproc_ge2 (ofrac : Q) (ng ns : Z) :
+  0 <= ofrac -> (1 <= ns)%Z -> (ns < ng)%Z -> (2 <= nproc1 QA ofrac ng ns)%Z.
+Proof.
+  intros Ho H1 H2. unfold nproc1. apply Z.ltb_lt in H2 as H2b. rewrite H2b. cbn [trunc QA].
+  apply Qtrunc_ge2. unfold nproc_pre1, zofac, one. cbn [add sub mul div ofZ QA]. rewrite !Qred_correct.
+  assert (Hs : 0 < inject_Z ns) by (change 0 with (inject_Z 0); rewrite <- Zlt_Qlt; lia).
+  assert (Hg : inject_Z ns < inject_Z ng) by (rewrite <- Zlt_Qlt; lia).
+  assert (Hq : 1 <= (1 + 2 * ofrac) * inject_Z ng / inject_Z ns).
+  { apply Qle_shift_div_l; [exact Hs|]. change (inject_Z 1) with 1. change (inject_Z 2) with 2. nra. }
+  change (inject_Z 1) with 1. change (inject_Z 2) with 2. lra.
+Qed.
+
+(* no division of Psize.__str__ is by zero: ngrid entries are >= 33, an
+   unreduced axis keeps xglob = ngrid, a reduced axis has nproc >= 2 so that
+   nproc * round(...) cannot be 1 *)
+Theorem report_total (p : params (A:=Q)) (st : pstate (A:=Q)) (sz : sizing (A:=Q)) :
+  set_all QA p st = Ok sz -> 0 <= p_ofrac p -> (0 < gotatom st)%Z ->
   exists m, report QA p st sz = Ok (Some m).
 Proof.
-  intros Hg Hm. unfold report. apply Z.ltb_lt in Hg. rewrite Hg.
-  unfold gtb. cbn [ltb QA]. apply Qltb_ge in Hm. rewrite Hm. eexists. reflexivity.
+  intros Hset Ho Hg. unfold report. apply Z.ltb_lt in Hg. rewrite Hg.
+  pose proof (grid_form QA p st sz Hset) as Hgrid.
+  destruct (set_all_nsmall _ _ _ Hset) as [Hk _].
+  destruct (set_all_fields _ _ _ _ Hset) as (mn & mx & _ & _ & _ & _ & _ & En & _ & Enp).
+  destruct (gtb QA _ _).
+  - assert (Ed : eqbA QA (glob_den QA (p_ofrac p)) (zero QA) = false).
+    { pose proof (glob_den_pos _ Ho) as Hd. unfold eqbA, zero. cbn [ltb ofZ QA].
+      apply andb_false_iff. right. apply negb_false_iff. apply Qltb_lt. exact Hd. }
+    rewrite Ed.
+    assert (Hax : forall i, ax i (zip3 (glob1 QA (p_ofrac p)) (s_nproc sz) (s_nsmall sz)) <> 1%Z).
+    { intros i. rewrite ax_zip3, Enp, ax_zip3, <- En. unfold glob1.
+      destruct (Hk i) as (k & Hk0 & Ek & Lk). pose proof (Hgrid i) as [_ G33].
+      destruct (Z.ltb_spec (ax i (s_nsmall sz)) (ax i (s_ngrid sz))) as [Hlt | Hge].
+      - pose proof (nproc_ge2 (p_ofrac p) (ax i (s_ngrid sz)) (ax i (s_nsmall sz)) Ho ltac:(lia) Hlt) as H2.
+        destruct (Z.eqb_spec (nproc1 QA (p_ofrac p) (ax i (s_ngrid sz)) (ax i (s_nsmall sz))) 1); [lia|].
+        intros E. apply Z.mul_eq_1 in E. lia.
+      - unfold nproc1. apply Z.ltb_ge in Hge as Hb. rewrite Hb. rewrite Z.eqb_refl. lia. }
+    destruct (zip3 _ (s_nproc sz) (s_nsmall sz)) as [[g0 g1] g2].
+    pose proof (Hax AX) as H0. pose proof (Hax AY) as H1. pose proof (Hax AZ) as H2. cbn [ax] in H0, H1, H2.
+    unfold spacing_ok.
+    apply Z.eqb_neq in H0, H1, H2. rewrite H0, H1, H2. cbn. eexists. reflexivity.
+  - destruct (s_ngrid sz) as [[g0 g1] g2].
+    pose proof (Hgrid AX) as [_ H0]. pose proof (Hgrid AY) as [_ H1]. pose proof (Hgrid AZ) as [_ H2]. cbn [ax] in H0, H1, H2.
+    unfold spacing_ok.
+    assert (E0 : (g0 =? 1)%Z = false) by (apply Z.eqb_neq; lia).
+    assert (E1 : (g1 =? 1)%Z = false) by (apply Z.eqb_neq; lia).
+    assert (E2 : (g2 =? 1)%Z = false) by (apply Z.eqb_neq; lia).
+    rewrite E0, E1, E2. cbn. eexists. reflexivity.
 Qed.
 
-(* ---- whole-line statement for separated fields, and the glued-field witness -- *)
+(* the structure that used to make Psize.__str__ raise (two atoms 100 A apart,
+   default parameters): now reported as a parallel solve, 97 x 129 x 129 points
+   per processor, 307.880 MB *)
+Example report_parallel_witness :
+  let p := mkP (17 # 10) 20 (1 # 2) 200 400 (1 # 10) (1 # 4) in
+  let evs := [EvAtom false (0, 0, 0, 1 # 10, 3 # 2); EvAtom false (100, 100, 100, 1 # 10, 3 # 2)] : list (event (A:=Q)) in
+  exists st sz m,
+    run_events QA (init_state QA) evs = Ok st /\ set_all QA p st = Ok sz /\
+    report QA p st sz = Ok (Some m) /\
+    r_parallel m = true /\ s_ngrid sz = (257, 257, 257)%Z /\
+    r_grid m = (97, 129, 129)%Z /\ s_nproc sz = (4, 3, 3)%Z /\ s_nfocus sz = 3%Z /\
+    r_est_mb m = 40354425 # 131072.
+Proof.
+  cbv zeta. eexists _, _, _.
+  split; [vm_compute; reflexivity|]. split; [vm_compute; reflexivity|].
+  split; [vm_compute; reflexivity|]. vm_compute. intuition discriminate.
+Qed.
+
+(* ---- whole-line statements: separated fields, fixed columns -------------------- *)
 
 Local Open Scope string_scope.
 
@@ -814,6 +1041,8 @@ Proof.
   cbn [append prefix_of]. rewrite IH by lia. reflexivity.
 Qed.
 
+(* five fields each kept apart from its predecessor by a blank or its own minus
+   sign (the --whitespace layout, or any free-format line) are read back exactly *)
 Theorem parse_line_separated {A : Type} (pfloat : string -> option A)
   (head : string) (a0 a1 a2 a3 a4 : nat) (t0 t1 t2 t3 t4 trail : string) (x y z q r : A) :
   String.length head = 30%nat -> is_coord_line head = true ->
@@ -830,47 +1059,169 @@ Theorem parse_line_separated {A : Type} (pfloat : string -> option A)
   = EvAtom (negb (prefix_of "ATOM" head)) (x, y, z, q, r).
 Proof.
   intros Hh Hc C0 C1 C2 C3 C4 S1 S2 S3 S4 Ht P0 P1 P2 P3 P4.
-  unfold parse_line.
+  unfold parse_line, fields_after30.
   rewrite (words_separated head a0 a1 a2 a3 a4 t0 t1 t2 t3 t4 trail Hh C0 C1 C2 C3 C4 S1 S2 S3 S4 Ht).
   rewrite !prefix_of_app by (rewrite Hh; cbn; lia).
-  unfold is_coord_line in Hc. rewrite Hc. rewrite P0, P1, P2, P3, P4. reflexivity.
+  unfold is_coord_line in Hc. rewrite Hc.
+  assert (E : forall b : bool,
+            (if negb b then last5 [t0; t1; t2; t3; t4]
+             else if (List.length [t0; t1; t2; t3; t4] <? 5)%nat then fixed_fields
+                    (head ++ repeat_char sp a0 ++ t0 ++ repeat_char sp a1 ++ t1 ++ repeat_char sp a2 ++ t2 ++
+                     repeat_char sp a3 ++ t3 ++ repeat_char sp a4 ++ t4 ++ trail)
+                  else [t0; t1; t2; t3; t4]) = [t0; t1; t2; t3; t4]) by (intros []; reflexivity).
+  rewrite E, P0, P1, P2, P3, P4. reflexivity.
 Qed.
 
-(* Full statement (fails): every atom line written in the fixed-column layout of
-   Atom.get_pqr_string is measured.  Witness: y = 1000.000 fills its 8 columns,
-   so x and y are one word, only 4 words remain, and the atom is counted but
-   silently not measured - whatever float() does. *)
-Theorem fixed_columns_refuted :
-  exists head xs ys zs qs rs : string,
-    String.length head = 30%nat /\ prefix_of "ATOM" head = true /\
-    clean_tok (strip xs) = true /\ clean_tok (strip ys) = true /\ clean_tok (strip zs) = true /\
-    clean_tok qs = true /\ clean_tok rs = true /\
-    String.length xs = 8%nat /\ String.length ys = 8%nat /\ String.length zs = 8%nat /\
-    forall (A : Type) (pfloat : string -> option A),
-      parse_line pfloat (head ++ pqr_tail xs ys zs qs rs) = EvCount false.
+(* Every ATOM/HETATM line in the fixed-column layout of Atom.get_pqr_string whose
+   five numbers fit their columns (8, 8, 8, 8, 7; '.' of a %8.3f coordinate at
+   offset 4) is measured with exactly the numbers written - with or without a
+   blank between neighbouring fields.  [pfloat] must ignore leading blanks, as
+   python's float() does. *)
+Theorem parse_line_fixed_columns {A : Type} (pfloat : string -> option A)
+  (head : string) (a0 a1 a2 a3 a4 : nat) (t0 t1 t2 t3 t4 trail : string) (x y z q r : A) :
+  String.length head = 30%nat -> is_coord_line head = true ->
+  clean_tok t0 = true -> clean_tok t1 = true -> clean_tok t2 = true ->
+  clean_tok t3 = true -> clean_tok t4 = true ->
+  (a0 + String.length t0 = 8)%nat -> (a1 + String.length t1 = 8)%nat ->
+  (a2 + String.length t2 = 8)%nat -> (a3 + String.length t3 = 8)%nat ->
+  (a4 + String.length t4 = 7)%nat ->
+  String.get 4 (repeat_char sp a0 ++ t0) = Some "."%char ->
+  String.get 4 (repeat_char sp a1 ++ t1) = Some "."%char ->
+  String.get 4 (repeat_char sp a2 ++ t2) = Some "."%char ->
+  all_chars is_ws trail = true ->
+  (forall n t, pfloat (repeat_char sp n ++ t) = pfloat t) ->
+  pfloat t0 = Some x -> pfloat t1 = Some y -> pfloat t2 = Some z ->
+  pfloat t3 = Some q -> pfloat t4 = Some r ->
+  parse_line pfloat
+    (head ++ (repeat_char sp a0 ++ t0) ++ (repeat_char sp a1 ++ t1) ++ (repeat_char sp a2 ++ t2) ++
+     (repeat_char sp a3 ++ t3) ++ (repeat_char sp a4 ++ t4) ++ trail)
+  = EvAtom (negb (prefix_of "ATOM" head)) (x, y, z, q, r).
 Proof.
-  exists "ATOM      2  CA  ALA     2    ", "  12.345", "1000.000", "   5.000", "0.1000", "1.5000".
-  repeat split.
+  intros Hh Hc C0 C1 C2 C3 C4 L0 L1 L2 L3 L4 D0 D1 D2 Ht Hpf P0 P1 P2 P3 P4.
+  set (X0 := repeat_char sp a0 ++ t0) in *. set (X1 := repeat_char sp a1 ++ t1) in *.
+  set (X2 := repeat_char sp a2 ++ t2) in *. set (X3 := repeat_char sp a3 ++ t3) in *.
+  set (X4 := repeat_char sp a4 ++ t4) in *.
+  assert (N0 : String.length X0 = 8%nat) by (unfold X0; rewrite length_pad; exact L0).
+  assert (N1 : String.length X1 = 8%nat) by (unfold X1; rewrite length_pad; exact L1).
+  assert (N2 : String.length X2 = 8%nat) by (unfold X2; rewrite length_pad; exact L2).
+  assert (N3 : String.length X3 = 8%nat) by (unfold X3; rewrite length_pad; exact L3).
+  assert (N4 : String.length X4 = 7%nat) by (unfold X4; rewrite length_pad; exact L4).
+  set (fs := [(a0, t0); (a1, t1); (a2, t2); (a3, t3); (a4, t4)]).
+  assert (Hr : X0 ++ X1 ++ X2 ++ X3 ++ X4 ++ trail = render fs trail).
+  { unfold fs, X0, X1, X2, X3, X4. cbn [render]. now rewrite !app_assoc_s. }
+  assert (Hf : Forall (fun f => clean_tok (snd f) = true) fs) by (unfold fs; repeat constructor; assumption).
+  pose proof (words_rendered head fs trail Hh Ht Hf) as [W1 W2]. rewrite <- Hr in W1, W2.
+  set (line := head ++ X0 ++ X1 ++ X2 ++ X3 ++ X4 ++ trail) in *.
+  unfold parse_line, fields_after30.
+  assert (Ea : prefix_of "ATOM" line = prefix_of "ATOM" head) by (apply prefix_of_app; rewrite Hh; cbn; lia).
+  assert (Eh : prefix_of "HETATM" line = prefix_of "HETATM" head) by (apply prefix_of_app; rewrite Hh; cbn; lia).
+  rewrite Ea, Eh. unfold is_coord_line in Hc. rewrite Hc.
+  assert (Hd : coord_dots line = true).
+  { unfold coord_dots, line.
+      change 50%nat with (30 + (8 + (8 + 4)))%nat. change 42%nat with (30 + (8 + 4))%nat. change 34%nat with (30 + 4)%nat.
+      rewrite !(get_app_skip head _ 30 _ Hh).
+      rewrite (get_app_skip X0 _ 8 _ N0), (get_app_skip X0 _ 8 _ N0), (get_app_skip X1 _ 8 _ N1).
+      rewrite (get_app_l X0), (get_app_l X1), (get_app_l X2) by (rewrite ?N0, ?N1, ?N2; lia).
+    rewrite D0, D1, D2. reflexivity. }
+  rewrite Hd. cbn [negb].
+  destruct (List.length (words_after30 line) <? 5)%nat eqn:E.
+  - (* fewer than five words: some neighbours have fused; the columns are used *)
+    unfold fixed_fields, line.
+    change 69%nat with (30 + (8 + (8 + (8 + (8 + 7)))))%nat.
+    change 62%nat with (30 + (8 + (8 + (8 + 8))))%nat. change 54%nat with (30 + (8 + (8 + 8)))%nat.
+    change 46%nat with (30 + (8 + 8))%nat. change 38%nat with (30 + 8)%nat.
+    change (slice 30 (30 + 8)) with (slice (30 + 0) (30 + 8)).
+    rewrite !(slice_app_skip head _ 30 _ _ Hh).
+    rewrite (slice_app_first X0 _ 8 N0).
+    change (slice 8 (8 + 8)) with (slice (8 + 0) (8 + 8)).
+    rewrite !(slice_app_skip X0 _ 8 _ _ N0).
+    rewrite (slice_app_first X1 _ 8 N1).
+    change (slice 8 (8 + 8)) with (slice (8 + 0) (8 + 8)).
+    rewrite !(slice_app_skip X1 _ 8 _ _ N1).
+    rewrite (slice_app_first X2 _ 8 N2).
+    change (slice 8 (8 + 8)) with (slice (8 + 0) (8 + 8)).
+    rewrite !(slice_app_skip X2 _ 8 _ _ N2).
+    rewrite (slice_app_first X3 _ 8 N3).
+    change (slice 8 (8 + 7)) with (slice (8 + 0) (8 + 7)).
+    rewrite !(slice_app_skip X3 _ 8 _ _ N3).
+    rewrite (slice_app_first X4 _ 7 N4).
+    cbn [filter]. unfold X0, X1, X2, X3, X4.
+    rewrite !pad_tok_not_blank by assumption. cbn [negb].
+    rewrite !Hpf, P0, P1, P2, P3, P4. reflexivity.
+  - (* five words: they are exactly the five written *)
+    apply Nat.ltb_ge in E. cbn [List.length fs] in W1, W2.
+    rewrite (W2 ltac:(lia)). cbn [map snd fs].
+    rewrite P0, P1, P2, P3, P4. reflexivity.
 Qed.
+
+(* Whitespace-delimited records (decimal points not in the PDB coordinate
+   columns): whatever words precede them after column 30 - the insertion code
+   of the --whitespace layout, or tokens pushed right by wide fields - the last
+   five words are the ones measured, provided every word after the first is
+   kept apart from its predecessor by a blank or its own minus sign. *)
+Theorem parse_line_ws_tail {A : Type} (pfloat : string -> option A)
+  (head : string) (pre : list (nat * string)) (a0 a1 a2 a3 a4 : nat) (t0 t1 t2 t3 t4 trail : string)
+  (x y z q r : A) :
+  let fs := (pre ++ [(a0, t0); (a1, t1); (a2, t2); (a3, t3); (a4, t4)])%list in
+  String.length head = 30%nat -> is_coord_line head = true ->
+  Forall (fun f => clean_tok (snd f) = true) fs ->
+  Forall kept_apart (tl fs) ->
+  all_chars is_ws trail = true ->
+  coord_dots (head ++ render fs trail) = false ->
+  pfloat t0 = Some x -> pfloat t1 = Some y -> pfloat t2 = Some z ->
+  pfloat t3 = Some q -> pfloat t4 = Some r ->
+  parse_line pfloat (head ++ render fs trail) = EvAtom (negb (prefix_of "ATOM" head)) (x, y, z, q, r).
+Proof.
+  intros fs Hh Hc Hf Ha Ht Hd P0 P1 P2 P3 P4.
+  unfold parse_line, fields_after30.
+  rewrite !prefix_of_app by (rewrite Hh; cbn; lia).
+  unfold is_coord_line in Hc. rewrite Hc, Hd. cbn [negb].
+  rewrite (words_rendered_apart head fs trail Hh Ht Hf Ha).
+  unfold fs. rewrite map_app. cbn [map snd]. rewrite last5_app by reflexivity.
+  rewrite P0, P1, P2, P3, P4. reflexivity.
+Qed.
+
+(* python's float() ignores leading blanks; a table-driven [pfloat] that strips
+   them first satisfies the premise above *)
+Lemma lstrip_blanks n t : lstrip (repeat_char sp n ++ t) = lstrip t.
+Proof. induction n; cbn [repeat_char append lstrip]; [reflexivity | exact IHn]. Qed.
+
+Definition pfloat_tab (tab : list (string * option Q)) (s : string) : option Q :=
+  lookup_float tab (lstrip s).
+
+Lemma pfloat_tab_blanks tab n t : pfloat_tab tab (repeat_char sp n ++ t) = pfloat_tab tab t.
+Proof. unfold pfloat_tab. now rewrite lstrip_blanks. Qed.
+
+(* the former witness of finding C17-F11 (y = 1000.000 fills its eight columns
+   and fuses with x) and a record in which all five numbers run together are
+   now measured *)
+(* records of the --whitespace layout with a blank at every field boundary: the
+   insertion code (a letter, a digit) is the first word after column 30 *)
+Example ws_tail_witness :
+  let tab := [("1.000", Some (1 # 1)); ("2.000", Some (2 # 1)); ("3.000", Some (3 # 1)); ("1", Some (1 # 1));
+              ("0.5000", Some (1 # 2)); ("1.5000", Some (3 # 2)); ("-10.5000", Some (-21 # 2));
+              ("1000.000", Some (1000 # 1)); ("-999.999", Some (-999999 # 1000))]%Q in
+  parse_line (pfloat_tab tab) "ATOM       1  CA   ALA A   12 B      1.000    2.000    3.000   0.5000  1.5000"
+    = EvAtom false (1 # 1, 2 # 1, 3 # 1, 1 # 2, 3 # 2)%Q /\
+  parse_line (pfloat_tab tab) "HETATM 12345  O    HOH A 1000 1   1000.000 -999.999    3.000 -10.5000  1.5000"
+    = EvAtom true (1000 # 1, -999999 # 1000, 3 # 1, -21 # 2, 3 # 2)%Q /\
+  parse_line (pfloat_tab tab) "ATOM       1  CA   ALA     12        1.000    2.000    3.000   0.5000  1.5000"
+    = EvAtom false (1 # 1, 2 # 1, 3 # 1, 1 # 2, 3 # 2)%Q.
+Proof. cbv zeta. repeat split. Qed.
+
+Example fixed_columns_witness :
+  let tab := [("12.345", Some (12345 # 1000)); ("1000.000", Some (1000 # 1)); ("5.000", Some (5 # 1));
+              ("0.1000", Some (1 # 10)); ("1.5000", Some (3 # 2)); ("1234.567", Some (1234567 # 1000));
+              ("100.0000", Some (100 # 1)); ("10.0000", Some (10 # 1))]%Q in
+  parse_line (pfloat_tab tab) "ATOM      2  CA  ALA     2      12.3451000.000   5.000  0.1000 1.5000"
+    = EvAtom false (12345 # 1000, 1000 # 1, 5 # 1, 1 # 10, 3 # 2)%Q /\
+  parse_line (pfloat_tab tab) "HETATM    2  CA  ALA     2    1234.5671000.0001234.567100.000010.0000"
+    = EvAtom true (1234567 # 1000, 1000 # 1, 1234567 # 1000, 100 # 1, 10 # 1)%Q /\
+  "ATOM      2  CA  ALA     2    " ++ pqr_tail "  12.345" "1000.000" "   5.000" "0.1000" "1.5000"
+    = "ATOM      2  CA  ALA     2      12.3451000.000   5.000  0.1000 1.5000".
+Proof. cbv zeta. repeat split. Qed.
 
 Local Close Scope string_scope.
-
-(* Full statement (fails): for every structure Psize.__str__ reports a memory
-   figure.  Witness: two atoms 100 A apart need a parallel solve. *)
-Theorem report_parallel_refuted :
-  exists (p : params (A:=Q)) (evs : list (event (A:=Q))) (st : pstate (A:=Q)) (sz : sizing (A:=Q)),
-    run_events QA (init_state QA) evs = Ok st /\ set_all QA p st = Ok sz /\
-    (0 < gotatom st)%Z /\ report QA p st sz = Err ErrFmtD.
-Proof.
-  pose (p := mkP (17 # 10) 20 (1 # 2) 200 400 (1 # 10) (1 # 4)).
-  pose (evs := [EvAtom false (0, 0, 0, 1 # 10, 3 # 2); EvAtom false (100, 100, 100, 1 # 10, 3 # 2)] : list (event (A:=Q))).
-  destruct (run_events QA (init_state QA) evs) as [st|] eqn:E1; [|vm_compute in E1; discriminate].
-  destruct (set_all QA p st) as [sz|] eqn:E2.
-  - exists p, evs, st, sz. split; [exact E1|]. split; [exact E2|].
-    vm_compute in E1. injection E1 as <-. vm_compute in E2. injection E2 as <-.
-    split; [reflexivity | vm_compute; reflexivity].
-  - vm_compute in E1. injection E1 as <-. vm_compute in E2. discriminate.
-Qed.
 
 (* non-vacuity: a concrete run where every hypothesis used above holds and the
    results are the ones the real code prints (33^3 grid, sequential, 6.854 MB) *)
@@ -881,7 +1232,7 @@ Example nonvacuous :
   exists st sz m,
     run_events QA (init_state QA) evs = Ok st /\ set_all QA p st = Ok sz /\
     report QA p st sz = Ok (Some m) /\
-    1 <= p_cfac p /\ 0 <= p_fadd p /\
+    1 <= p_cfac p /\ 0 <= p_fadd p /\ 0 <= p_ofrac p /\
     gotatom st = 2%Z /\ gothet st = 1%Z /\
     box st = Some ((-3 # 2, -3 # 2, -3 # 2), (23 # 2, 23 # 2, 23 # 2)) /\
     s_ngrid sz = (33, 33, 33)%Z /\ s_center sz = (5, 5, 5) /\
@@ -895,79 +1246,33 @@ Qed.
 
 (* ---- set_smallest does not raise unless the ceiling is below one grid point ---- *)
 
-Lemma eqbA_true (x m : Q) : eqbA QA x m = true -> x == m.
-Proof.
-  unfold eqbA. cbn [ltb QA]. intros H. apply andb_true_iff in H as [H1 H2].
-  apply negb_true_iff in H1, H2. apply Qltb_ge in H1, H2. lra.
-Qed.
-
-Lemma eqbA_false (x m : Q) : eqbA QA x m = false -> ~ x == m.
-Proof.
-  unfold eqbA. cbn [ltb QA]. intros H E. apply andb_false_iff in H as [H|H];
-  apply negb_false_iff, Qltb_lt in H; lra.
-Qed.
-
-Lemma pmax_spec (a b : Q) : a <= pmax QA a b /\ b <= pmax QA a b /\ (pmax QA a b = a \/ pmax QA a b = b).
-Proof. unfold pmax. cbn [ltb QA]. destruct (Qltb a b) eqn:E; [apply Qltb_lt in E | apply Qltb_ge in E]; repeat split; try lra; auto. Qed.
-
-Lemma rep_ge1 n k : rep n k -> 1 <= toA QA n.
-Proof.
-  intros [H Hk]. rewrite H. change 1 with (inject_Z 1). rewrite <- Zle_Qle. lia.
-Qed.
-
-Lemma rep_le1 n k : rep n k -> toA QA n <= 1 -> k = 0%Z.
-Proof.
-  intros [H Hk] L. rewrite H in L. change 1 with (inject_Z 1) in L. rewrite <- Zle_Qle in L. lia.
-Qed.
-
-Lemma rep0_one n : rep n 0 -> toA QA n == 1.
-Proof. intros [H _]. rewrite H. reflexivity. Qed.
-
-Lemma mem_mb_prod (a b c : pynum (A:=Q)) :
-  mem_mb QA (a, b, c) == 200 * toA QA a * toA QA b * toA QA c / 1024 / 1024.
+Lemma mem_mb_prod (a b c : Z) :
+  mem_mb QA (a, b, c) == 200 * inject_Z a * inject_Z b * inject_Z c / 1024 / 1024.
 Proof. unfold mem_mb. cbn [add sub mul div ofZ QA]. rewrite !Qred_correct. reflexivity. Qed.
 
 Definition mem_floor : Q := 200 / 1024 / 1024.
 
-Lemma shrink_ok (a b c : pynum (A:=Q)) (ka kb kc : Z) :
+Lemma shrink_ok (a b c ka kb kc : Z) :
   rep a ka -> rep b kb -> rep c kc ->
   mem_floor < mem_mb QA (a, b, c) ->
-  exists n', shrink QA (a, b, c) = Ok n'.
+  exists n', shrink (a, b, c) = Ok n'.
 Proof.
   intros Ra Rb Rc Hm.
   assert (Hall : ~ (ka = 0 /\ kb = 0 /\ kc = 0)%Z).
-  { intros (-> & -> & ->). rewrite mem_mb_prod in Hm.
-    rewrite (rep0_one _ Ra), (rep0_one _ Rb), (rep0_one _ Rc) in Hm. unfold mem_floor in Hm. qconst. lra. }
-  pose proof (rep_ge1 _ _ Ra) as Ga. pose proof (rep_ge1 _ _ Rb) as Gb. pose proof (rep_ge1 _ _ Rc) as Gc.
+  { intros (-> & -> & ->). destruct Ra as [-> _], Rb as [-> _], Rc as [-> _].
+    vm_compute in Hm. discriminate. }
   unfold shrink.
-  set (m := pmax QA (pmax QA (toA QA a) (toA QA b)) (toA QA c)).
-  destruct (pmax_spec (toA QA a) (toA QA b)) as (M1 & M2 & M3).
-  destruct (pmax_spec (pmax QA (toA QA a) (toA QA b)) (toA QA c)) as (M4 & M5 & M6).
-  fold m in M4, M5, M6.
-  destruct (eqbA QA (toA QA a) m) eqn:Ea.
-  - apply eqbA_true in Ea. destruct Ra as [Ha Pa].
-    destruct (rep_reduce _ _ Ha Pa) as [[-> K] | [-> _]]; [|eexists; reflexivity].
-    exfalso. apply Hall. subst ka.
-    assert (toA QA a == 1) by (rewrite Ha; reflexivity).
-    split; [reflexivity|]. split; [apply (rep_le1 _ _ Rb) | apply (rep_le1 _ _ Rc)]; lra.
-  - apply eqbA_false in Ea. destruct (eqbA QA (toA QA b) m) eqn:Eb.
-    + apply eqbA_true in Eb. destruct Rb as [Hb Pb].
-      destruct (rep_reduce _ _ Hb Pb) as [[-> K] | [-> _]]; [|eexists; reflexivity].
-      exfalso. apply Hall. subst kb.
-      assert (toA QA b == 1) by (rewrite Hb; reflexivity).
-      split; [apply (rep_le1 _ _ Ra); lra|]. split; [reflexivity | apply (rep_le1 _ _ Rc); lra].
-    + apply eqbA_false in Eb.
-      assert (Ec : toA QA c == m).
-      { destruct M6 as [E|E]; [|rewrite E; reflexivity].
-        exfalso. destruct M3 as [E3|E3]; rewrite E3 in E; [apply Ea | apply Eb]; rewrite E; reflexivity. }
-      destruct Rc as [Hc Pc].
-      destruct (rep_reduce _ _ Hc Pc) as [[-> K] | [-> _]]; [|eexists; reflexivity].
-      exfalso. apply Hall. subst kc.
-      assert (toA QA c == 1) by (rewrite Hc; reflexivity).
-      split; [apply (rep_le1 _ _ Ra); lra|]. split; [apply (rep_le1 _ _ Rb); lra | reflexivity].
+  destruct (Z.eqb_spec a (Z.max (Z.max a b) c)) as [Ea | Ea].
+  - destruct (rep_reduce _ _ Ra) as [[-> K] | [-> _]]; [|eexists; reflexivity].
+    exfalso. apply Hall. destruct Ra as [-> _], Rb as [-> ?], Rc as [-> ?]. lia.
+  - destruct (Z.eqb_spec b (Z.max (Z.max a b) c)) as [Eb | Eb].
+    + destruct (rep_reduce _ _ Rb) as [[-> K] | [-> _]]; [|eexists; reflexivity].
+      exfalso. apply Hall. destruct Ra as [-> ?], Rb as [-> _], Rc as [-> ?]. lia.
+    + destruct (rep_reduce _ _ Rc) as [[-> K] | [-> _]]; [|eexists; reflexivity].
+      exfalso. apply Hall. destruct Ra as [-> ?], Rb as [-> ?], Rc as [-> _]. lia.
 Qed.
 
-Lemma smallest_ok (fuel : nat) (ceil : Q) (a b c : pynum (A:=Q)) (ka kb kc : Z) :
+Lemma smallest_ok (fuel : nat) (ceil : Q) (a b c ka kb kc : Z) :
   rep a ka -> rep b kb -> rep c kc ->
   (Z.to_nat (ka + kb + kc) < fuel)%nat -> mem_floor < ceil ->
   exists n', smallest QA fuel ceil (a, b, c) = Ok n'.
@@ -986,11 +1291,11 @@ Qed.
 Theorem smallest_succeeds (p : params (A:=Q)) (mn mx : vec3 Q) :
   200 / 1024 / 1024 < p_gmemceil p ->
   let ng := ngrid_of QA p mn mx in
-  exists ns, smallest QA (smallest_fuel ng) (p_gmemceil p) (map3 PInt ng) = Ok ns.
+  exists ns, smallest QA (smallest_fuel ng) (p_gmemceil p) ng = Ok ns.
 Proof.
   intros Hc. cbv zeta. pose proof (ngrid_of_ok QA p mn mx) as Hok.
   destruct (ngrid_of QA p mn mx) as [[a b] c].
   pose proof (Hok AX) as Ha. pose proof (Hok AY) as Hb. pose proof (Hok AZ) as Hcc. cbn [ax] in Ha, Hb, Hcc.
-  cbn [map3 smallest_fuel].
+  cbn [smallest_fuel].
   apply (smallest_ok _ _ _ _ _ _ _ _ (grid_ok_rep _ Ha) (grid_ok_rep _ Hb) (grid_ok_rep _ Hcc)); [lia | exact Hc].
 Qed.
